@@ -174,6 +174,7 @@ func shutdownMain(p ShutdownParams) {
 	closeCalled := false
 	inflightSave := false
 	var closeCallTime int64
+	closeStreamOrder := 0
 	_ = closeCallTime
 	doClose := func() {
 		for vb, s := range maxAcked(e.Cons) {
@@ -243,12 +244,25 @@ func shutdownMain(p ShutdownParams) {
 		vrt.InjectAt("sim:dcp:events0", k, doClose)
 		c.Append(0, marker(4, 4), symbolPacket("M", 4))
 	case "dropduringclose":
-		// the connection drops (stream end with a re-openable cause) at every point of the teardown
-		doClose()
-		vrt.InjectAt("dcp.Start", k, func() {
-			vrt.Logf("connection dropped during shutdown")
-			c.EndStream(1, gocbcore.ErrSocketClosed)
-		})
+		// the connection drops (stream end with a re-openable cause) at every point of the teardown, or
+		// exactly while the close-stream request of vb1 is on the wire
+		if k == 0 {
+			c.Fault = func(r *gocbcore.SimRequest) gocbcore.SimAnswer {
+				if r.Kind == "closestream" && r.Vb == 1 && closeStreamOrder == 0 {
+					closeStreamOrder = r.IssuedOrder
+					c.EndStream(1, gocbcore.ErrSocketClosed)
+					return gocbcore.SimAnswer{Kind: "err", Err: gocbcore.ErrSocketClosed}
+				}
+				return gocbcore.SimAnswer{}
+			}
+			doClose()
+		} else {
+			doClose()
+			vrt.InjectAt("dcp.Start", k, func() {
+				vrt.Logf("connection dropped during shutdown")
+				c.EndStream(1, gocbcore.ErrSocketClosed)
+			})
+		}
 	case "rebalance":
 		vrt.InjectAt("rebalancer", k, doClose)
 		vrt.GoNamed("rebalancer", func() {
@@ -327,6 +341,13 @@ func shutdownMain(p ShutdownParams) {
 	for vb := uint16(0); vb < 2; vb++ {
 		if c.StreamOpen(vb) {
 			vrt.Failf("%s: the stream of vb%d was never closed", desc, vb)
+		}
+	}
+	if closeStreamOrder > 0 {
+		for _, r := range c.RequestsOf("openstream") {
+			if r.Vb == 1 && r.IssuedOrder > closeStreamOrder {
+				vrt.Failf("%s: vb1 was re-opened after the shutdown had already requested its stream to be closed (the connection dropped during the close-stream request)", desc)
+			}
 		}
 	}
 	vrt.SetOutcome(fmt.Sprintf("%s|ok|%v", desc, settledAtCall))
